@@ -634,8 +634,21 @@ func ruleSeekRedirect(c *Ctx, r *Rep, tier string) {
 // which discards error results for blocks it did not ask for, blocks on working.
 func rulePipeStall(c *Ctx, r *Rep, tier string) {
 	rule := "PIPE-STALL"
+	worker, tested, found := workerTestsErr(c)
+	r.Instance(rule, 1)
+	why := ""
+	if !found {
+		why = "nextBlockAt / NextBase calls not found in the read-ahead loop"
+	} else if !tested {
+		why = "the next read-ahead offset is taken from dec.blk.NextBase() whether or not nextBlockAt failed: after a failure it is -1 and the worker waits on control, which nothing but Seek feeds, while the reader waits on working for a block nobody is reading"
+	}
+	r.Check(why == "", rule, "bgzf.NewReader$read-ahead#error-before-next", c.Pos(worker.Pos()), "the loop tests the decompressor's error before deriving the next offset", why)
+}
+
+// workerTestsErr: the read-ahead literal of NewReader; whether a test of the
+// decompressor's error, placed after nextBlockAt, decides if NextBase is asked.
+func workerTestsErr(c *Ctx) (worker *ssa.Function, tested, found bool) {
 	nr := c.Func("bgzf", "NewReader")
-	var worker *ssa.Function
 	for _, f := range nr.AnonFuncs {
 		has := false
 		allInstrs(f, func(ins ssa.Instruction) {
@@ -669,26 +682,19 @@ func rulePipeStall(c *Ctx, r *Rep, tier string) {
 			}
 		}
 	})
-	r.Instance(rule, 1)
-	why := ""
 	if nba == nil || nb == nil {
-		why = "nextBlockAt / NextBase calls not found in the read-ahead loop"
-	} else {
-		tested := false
-		for _, b := range worker.Blocks {
-			iff := ifOf(b)
-			if iff == nil {
-				continue
-			}
-			if condMentions(iff.Cond, "err", 0) && instrDominates(nba, iff) && (dominatedByEdge(worker, b, 0, nb.Block()) || dominatedByEdge(worker, b, 1, nb.Block())) {
-				tested = true
-			}
+		return worker, false, false
+	}
+	for _, b := range worker.Blocks {
+		iff := ifOf(b)
+		if iff == nil {
+			continue
 		}
-		if !tested {
-			why = "the next read-ahead offset is taken from dec.blk.NextBase() whether or not nextBlockAt failed: after a failure it is -1 and the worker waits on control, which nothing but Seek feeds, while the reader waits on working for a block nobody is reading"
+		if condMentions(iff.Cond, "err", 0) && instrDominates(nba, iff) && (dominatedByEdge(worker, b, 0, nb.Block()) || dominatedByEdge(worker, b, 1, nb.Block())) {
+			tested = true
 		}
 	}
-	r.Check(why == "", rule, "bgzf.NewReader$read-ahead#error-before-next", c.Pos(worker.Pos()), "the loop tests the decompressor's error before deriving the next offset", why)
+	return worker, tested, true
 }
 
 var _ = types.Typ
